@@ -70,6 +70,10 @@ CHECKS = {
     text="(a) every single +/-NAME, every ordered pair over the 21 flag names, ordered triples, whole-table lists and 19 classes of malformed lists are passed to the real binary and the printed flag set is compared with set arithmetic over an independent table; --default-flags is compared with the standard set; behavioural probes pin 12 flags to their bits; (b) every script of 1-2 symbols from small initial stacks x 3 sigversions is run under all 2^8 subsets of the execution-relevant flags and every cover edge of the subset lattice is checked for monotonicity (success under B implies success under B minus one flag)",
     note="(a) independent flag table in drivers/procutil.py; (b) metamorphic relation on the real ContinueScript, exhaustive for inclusion by transitivity over the cover relation",
     tech="exhaustive enumeration of flag lists against the real binary + exhaustive lattice-edge check of the monotonicity relation"),
+ "C12": dict(engine="c12_listing", cat=MC, design="DESIGN.md §3 C12",
+    text="the forced-interactive btcdeb (real main(), real kerl command table, isatty interposed) is driven through every prefix of steps of every plain script of up to 3 ops (thorough: 4) over a 12-symbol alphabet and of every synthesised spend type (legacy with scriptPubKey section, P2SH, P2WPKH, P2WSH, P2SH-wrapped, taproot key path, tapscript with several path lengths, real-chain pairs), and through every {step, rewind} history up to length 6/8; at every point the printed listing is compared line by line with the reference micro-step list, the marked line with the micro-step the next step actually performs (established from the tool's own stack change against the reference stacks), and the #NNNN echo with the marker",
+    note="trusted: mc_gen session plans and mc_refcli stacks; rewind histories avoid the C04 defect classes (stated in the evidence)",
+    tech="exhaustive exploration of the command-history graph of REPL sessions through the real binary with a reference micro-step model"),
 }
 
 REASON_PENDING = "check under construction in this round; not claimed until its engine has run end-to-end"
